@@ -950,7 +950,7 @@ def _check_cc(api):
         ecc = attr('eccCurves', settings)
         cands = _in_terms(st.pc, ecc)
         OB(api, st, 'certchain:ECDSA-curve(<=1.2)-in-settings.eccCurves-after-alias-normalisation',
-           FALSE if (ver is None or len(cands) != 1 or not str(cands[0]).startswith('curve_name')) else
+           FALSE if (ver is None or len(cands) != 1 or 'curve_name' not in str(cands[0])) else
            z3.Implies(z3.And(is_('ecdsa'), V_LE(tv(ver), vtup(3, 3))), V_IN(cands[0], ecc)))
         OB(api, st, 'certchain:EdDSA-certificate-not-below-TLS1.2',
            FALSE if ver is None else z3.Implies(z3.Or(is_('Ed25519'), is_('Ed448')), z3.Not(V_LT(tv(ver), vtup(3, 3)))))
